@@ -519,6 +519,11 @@ class Harness:
         if self.scn.get("no_accept"):
             return
         hooks.emit("accept.call", r=1)
+        if getattr(self, "pair_barrier", None) is not None:
+            try:
+                self.pair_barrier.wait(2.0)   # (the other first accept() starts at this very instant)
+            except threading.BrokenBarrierError:
+                pass
         try:
             self.runtime.accept()
         except BaseException as e:  # noqa
@@ -676,6 +681,33 @@ class Harness:
                         hooks.emit("accept.ret", r=rn, outcome="returned", exc="", cause_p="", cause_kind="")
                 t = self.helper(acc2, "accept2")
                 t.join(op.get("timeout", 1.0))
+            elif o == "accept_pair":
+                # the FIRST two accept() calls of the process at (as nearly as possible) the same
+                # instant: this runtime in the main thread, another runner in a helper thread
+                self.nrunner = getattr(self, "nrunner", 1) + 1
+                rn = self.nrunner
+                r2 = self.SR(accept_delay=0.02)
+                self.runtime2 = r2
+
+                self.pair_barrier = threading.Barrier(2)
+
+                def acc_pair(rn=rn, r2=r2):
+                    self.accept_go.wait()
+                    hooks.emit("accept.call", r=rn)
+                    try:
+                        self.pair_barrier.wait(2.0)
+                    except threading.BrokenBarrierError:
+                        pass
+                    try:
+                        r2.accept()
+                    except BaseException as e:  # noqa
+                        hooks.emit("accept.ret", r=rn, outcome="raised", exc=type(e).__name__, cause_p="", cause_kind="")
+                    else:
+                        hooks.emit("accept.ret", r=rn, outcome="returned", exc="", cause_p="", cause_kind="")
+                self.helper(acc_pair, "accept2")
+                time.sleep(0.01)
+                self.accept_go.set()
+                time.sleep(op.get("ms", 300) / 1000.0)
             elif o == "adopt2":
                 # a payload given to ANOTHER ServiceRunner instance (the one the next second_accept
                 # will try to run) before that one has ever accepted: it is that runner's business
